@@ -92,6 +92,9 @@ type scenario struct {
 	NoDriftFrom int
 	// ExtraDrifts: further drift kinds injected in this scenario only
 	ExtraDrifts []string
+	// OnlyExtraDrifts: the general drift kinds are not injected (the managed objects belong to a
+	// paused revision, which legitimately leaves drift on them alone)
+	OnlyExtraDrifts bool
 }
 
 func ready(w *world.World) {
@@ -112,6 +115,15 @@ var driftKinds = []string{"delete", "modify-spec", "drop-cache-label", "lower-re
 func applyDrift(w *world.World, sc scenario, d string) bool {
 	kind, idx, _ := strings.Cut(d, "#")
 	targets := sc.DriftTargets(w)
+	if kind == "activate-revision" {
+		// a third party sets a revision's lifecycleState back to Active (whatever else is on it stays)
+		targets = nil
+		for _, k := range w.S.SortedKeys() {
+			if k.Kind == "ObjectSet" && k.Group == "package-operator.run" {
+				targets = append(targets, k)
+			}
+		}
+	}
 	if kind == "delete-phase-object" {
 		// the t-th ObjectSetPhase that exists at that moment (a managed object of the ObjectSet)
 		targets = nil
@@ -179,6 +191,11 @@ func applyDrift(w *world.World, sc scenario, d string) bool {
 			sp["empty"] = "filled-by-third-party"
 			sp["emptyList"] = []any{"x"}
 		})
+	case "activate-revision":
+		if osw.Lifecycle(w.S.Objs[k].Content) != "Paused" {
+			return false
+		}
+		_ = w.Edit(k, func(c map[string]any) { c["spec"].(map[string]any)["lifecycleState"] = "Active" })
 	case "lower-revision":
 		_ = w.Edit(k, func(c map[string]any) {
 			if a, ok := c["metadata"].(map[string]any)["annotations"].(map[string]any); ok {
@@ -509,6 +526,13 @@ func scenarios() []scenario {
 			w.MustCreate(world.NewObjectSet("r1", ps, world.StdProbes()))
 			return w
 		}, DriftTargets: testObjects, ExtraDrifts: []string{"append-list", "fill-empty"}},
+		{Name: "S14 paused ObjectDeployment T1{a,b}: a third party sets its paused revision back to Active", Init: func() *world.World {
+			w := osw.NewWorld()
+			w.MustCreate(osw.NewOD("d", osw.Template(osw.OnePhase("a", "b"), 1), nil))
+			settle(w)
+			osw.SetODPaused(w, "d", true)
+			return w
+		}, DriftTargets: testObjects, ExtraDrifts: []string{"activate-revision"}, OnlyExtraDrifts: true},
 		{Name: "S5 ObjectTemplate with one source", Init: func() *world.World {
 			w := osw.NewWorld()
 			src := world.Obj("Gadget", world.NS, "s1", nil)
@@ -598,7 +622,11 @@ func run(o checks.Opts) *report.Report {
 				continue
 			}
 			for t := 0; t < nt+1; t++ {
-				for _, dk := range append(append([]string{}, driftKinds...), sc.ExtraDrifts...) {
+				kinds := append(append([]string{}, driftKinds...), sc.ExtraDrifts...)
+				if sc.OnlyExtraDrifts {
+					kinds = sc.ExtraDrifts
+				}
+				for _, dk := range kinds {
 					injs = append(injs, &injection{Round: r, Drift: fmt.Sprintf("%s#%d", dk, t)})
 				}
 			}
